@@ -1,6 +1,505 @@
-//! C44 — not implemented yet.
+//! C44 — VALUES lists produce their rows.
+//!
+//! Generator (own, choice-tape): a VALUES list of 1–8 rows × 1–5 columns. Each
+//! column has a kind — BIGINT, DOUBLE, mixed BIGINT/DOUBLE, VARCHAR (with an
+//! embedded quote, the text 'NULL', a non-ASCII letter), BOOLEAN or all-NULL —
+//! and a NULL density (0/25/50 %); a NULL is forced into the first row of some
+//! column in a quarter of the cases (the binder infers the schema from the
+//! first row only). The list is used
+//!   direct      VALUES (…), (…)
+//!   star        SELECT * FROM (VALUES …) AS v
+//!   aliased     SELECT v.c2, v.c1 FROM (VALUES …) AS v(c1, c2, …)
+//!   filtered    … WHERE <comparison / IS NULL / IN-list on a column>
+//!   joined      … INNER/LEFT/RIGHT JOIN r ON v.ci = r.x   (r: a small generated table with NULLs)
+//!   aggregated  COUNT(*) / COUNT(c) / SUM / MIN / MAX, global and GROUP BY c1
+//!   cte         WITH w(c1, …) AS (VALUES …) SELECT … FROM w
+//!   setop       VALUES … UNION ALL VALUES … , SELECT x FROM r UNION ALL VALUES …
+//!   ordered     … ORDER BY c1 [DESC] [NULLS FIRST], … [LIMIT n]
+//! The names of un-aliased VALUES columns are implementation-defined, so columns
+//! are referenced only through names the statement itself defines, in one of
+//! three ways: a derived-table column-alias list `AS v(c1, …)` (50 %), a CTE column
+//! list `WITH v(c1, …)` (30 %) — both need the binder fix
+//! `fix-derived-column-aliases.patch`, without it they are "Column not found"
+//! errors (allowed) — or an empty first UNION ALL operand that carries the names:
+//! `(SELECT 1 AS c1, 'n2' AS c2 FROM r WHERE 1 = 0 UNION ALL VALUES …) AS v` (20 %).
+//!
+//! Oracle: `refsql` (the listed rows; cross-checked against SQLite with the
+//! `values` export profile, which uses the CTE / UNION forms for the names).
+//! NT: the list has ≥ 2 rows and contains a NULL, and the engine answered.
+//! Known finding `values-no-rows` (every VALUES list is lowered to an empty
+//! relation) has a precise signature: the engine's answer equals the reference
+//! answer of the same statement with every VALUES list emptied.
 use super::Property;
+use crate::data::*;
+use crate::kf_sql::classify_sql;
+use crate::runner::*;
+use crate::sqlast::*;
+use crate::sqlcheck::*;
+use crate::sqlgen::{SqlCase, Tape};
+use proptest::prelude::*;
+use std::collections::BTreeSet;
+
+#[derive(Clone, Copy, PartialEq, Eq, Debug)]
+enum Kind {
+    Int,
+    Dbl,
+    Mixed,
+    Str,
+    Bool,
+    AllNull,
+}
+
+struct VList {
+    rows: Vec<Vec<Expr>>,
+    kinds: Vec<Kind>,
+    names: Vec<String>,
+}
+
+fn cell(t: &mut Tape, k: Kind) -> Value {
+    match k {
+        Kind::Int => Value::Int([0, 1, 2, 3, -1, 7][t.pick(6)]),
+        Kind::Dbl => Value::Double([0.5, 1.0, 1.5, -0.25, 2.25, 0.0][t.pick(6)]),
+        Kind::Mixed => {
+            if t.chance(50) {
+                Value::Double([1.5, 0.5, 2.0, -0.75][t.pick(4)])
+            } else {
+                Value::Int([1, 2, 0, 3][t.pick(4)])
+            }
+        }
+        Kind::Str => Value::Str(["a", "", "b", "a'b", "NULL", "é", "ab"][t.pick(7)].to_string()),
+        Kind::Bool => Value::Bool(t.pick(2) == 0),
+        Kind::AllNull => Value::Null,
+    }
+}
+
+fn gen_list(t: &mut Tape, ncols: Option<&[Kind]>) -> VList {
+    let nrows = 1 + t.pick(8);
+    let kinds: Vec<Kind> = match ncols {
+        Some(k) => k.to_vec(),
+        None => {
+            let n = 1 + t.pick(5);
+            (0..n).map(|_| [Kind::Int, Kind::Str, Kind::Dbl, Kind::Mixed, Kind::Bool, Kind::Int, Kind::Str, Kind::AllNull][t.pick(8)]).collect()
+        }
+    };
+    let pcts: Vec<u32> = kinds.iter().map(|_| [0, 25, 50][t.pick(3)]).collect();
+    let mut rows = vec![];
+    for _ in 0..nrows {
+        let row: Vec<Expr> = kinds
+            .iter()
+            .zip(&pcts)
+            .map(|(k, p)| {
+                let v = cell(t, *k);
+                Expr::Lit(if t.chance(*p) { Value::Null } else { v })
+            })
+            .collect();
+        rows.push(row);
+    }
+    if t.chance(25) {
+        let c = t.pick(kinds.len());
+        rows[0][c] = Expr::Lit(Value::Null);
+    }
+    let names = (1..=kinds.len()).map(|i| format!("c{}", i)).collect();
+    VList { rows, kinds, names }
+}
+
+fn gen_r(t: &mut Tape) -> Table {
+    let n = t.pick(7);
+    let rows = (0..n)
+        .map(|_| {
+            let x = if t.chance(20) { Value::Null } else { Value::Int(t.pick(4) as i64) };
+            let y = if t.chance(20) { Value::Null } else { Value::Str(["a", "b", "", "ab"][t.pick(4)].to_string()) };
+            let z = if t.chance(20) { Value::Null } else { Value::Double(t.pick(5) as f64 * 0.5) };
+            let b = if t.chance(20) { Value::Null } else { Value::Bool(t.pick(2) == 0) };
+            vec![x, y, z, b]
+        })
+        .collect();
+    let c = |n: &str, ty| Column { name: n.into(), ty };
+    Table { name: "r".into(), cols: vec![c("x", ColType::Int), c("y", ColType::Str), c("z", ColType::Double), c("b", ColType::Bool)], rows }
+}
+
+/// How the columns of the VALUES list get their names `c1, c2, …`.
+#[derive(Clone, Copy, PartialEq, Eq, Debug)]
+enum Naming {
+    /// `(VALUES …) AS v(c1, …)` — a derived-table column-alias list
+    AliasList,
+    /// `WITH v(c1, …) AS (VALUES …)`
+    CteList,
+    /// `(SELECT r.x AS c1, … FROM r WHERE 1 = 0 UNION ALL VALUES …) AS v` — the
+    /// names (and nothing else) come from the empty first operand of the set operation
+    UnionNamed,
+}
+
+/// The VALUES list as a named relation `v(c1, …)`.
+fn source(l: &VList, naming: Naming) -> (Vec<Cte>, From) {
+    let q = Query::of(SetExpr::Values(l.rows.clone()));
+    match naming {
+        Naming::CteList => (vec![Cte { name: "v".into(), cols: Some(l.names.clone()), q }], From::Table { name: "v".into(), alias: None }),
+        Naming::AliasList => (vec![], From::Derived { q: Box::new(q), alias: "v".into(), cols: Some(l.names.clone()) }),
+        Naming::UnionNamed => {
+            let items: Vec<Item> = l
+                .kinds
+                .iter()
+                .zip(&l.names)
+                .enumerate()
+                .map(|(ci, (_k, n))| {
+                    // the naming operand's column has exactly the type the list's column
+                    // gets (UNION ALL of BIGINT with DOUBLE is a different property's business)
+                    let cells: Vec<&Value> = l.rows.iter().filter_map(|r| if let Expr::Lit(v) = &r[ci] { Some(v) } else { None }).collect();
+                    // a distinct typed constant per column (the operand is empty, so its
+                    // value never shows; a repeated source column loses its alias in the engine)
+                    let k = ci as i64 + 1;
+                    let e = if cells.iter().any(|v| matches!(v, Value::Double(_))) {
+                        Expr::Lit(Value::Double(k as f64 + 0.5))
+                    } else if cells.iter().any(|v| matches!(v, Value::Int(_))) {
+                        Expr::int(k)
+                    } else if cells.iter().any(|v| matches!(v, Value::Bool(_))) {
+                        Expr::bin(Expr::int(1), BinOp::Eq, Expr::int(k))
+                    } else {
+                        Expr::Lit(Value::Str(format!("n{}", k)))
+                    };
+                    Item::Expr(e, Some(n.clone()))
+                })
+                .collect();
+            let never = Expr::bin(Expr::int(1), BinOp::Eq, Expr::int(0));
+            let names = Select::simple(items, vec![From::Table { name: "r".into(), alias: None }], Some(never));
+            let u = SetExpr::Op { op: SetOp::Union, all: true, l: Box::new(SetExpr::Select(Box::new(names))), r: Box::new(SetExpr::Values(l.rows.clone())) };
+            (vec![], From::Derived { q: Box::new(Query::of(u)), alias: "v".into(), cols: None })
+        }
+    }
+}
+
+fn vcol(n: &str) -> Expr {
+    Expr::qcol("v", n)
+}
+
+fn lit_for(t: &mut Tape, k: Kind) -> Expr {
+    match k {
+        Kind::AllNull => Expr::int(1),
+        k => Expr::Lit(cell(t, k)),
+    }
+}
+
+fn predicate(t: &mut Tape, l: &VList) -> Expr {
+    let c = t.pick(l.kinds.len());
+    let (k, col) = (l.kinds[c], vcol(&l.names[c]));
+    match t.pick(5) {
+        0 => Expr::IsNull { e: Box::new(col), neg: t.chance(50) },
+        1 if k != Kind::Bool && k != Kind::AllNull => {
+            let n = 1 + t.pick(3);
+            let list = (0..n).map(|_| lit_for(t, k)).collect();
+            Expr::InList { e: Box::new(col), list, neg: t.chance(40) }
+        }
+        _ if k == Kind::Bool => col,
+        _ if k == Kind::AllNull => Expr::IsNull { e: Box::new(col), neg: t.chance(50) },
+        _ => {
+            let op = [BinOp::Eq, BinOp::Ne, BinOp::Lt, BinOp::Ge][t.pick(4)];
+            Expr::bin(col, op, lit_for(t, k))
+        }
+    }
+}
+
+pub fn gen_values(tape: Vec<u16>, cuts: Vec<usize>, sqlite_friendly: bool) -> SqlCase {
+    let mut t = Tape::new(tape);
+    let r = gen_r(&mut t);
+    let l = gen_list(&mut t, None);
+    let mut feats: BTreeSet<String> = BTreeSet::new();
+    // Three ways to name the columns. Column-alias lists on derived tables / CTEs need
+    // the binder fix `fix-derived-column-aliases.patch` (without it: "Column not found",
+    // an allowed error); the UNION-ALL naming works without alias lists but the engine
+    // often fails to resolve the names above a UNION whose operands name their columns
+    // differently (also an error).
+    let naming = match (sqlite_friendly, t.pick(10)) {
+        (true, 0..=4) => Naming::CteList,
+        (true, _) => Naming::UnionNamed,
+        (false, 0..=4) => Naming::AliasList,
+        (false, 5 | 6 | 7) => Naming::CteList,
+        (false, _) => Naming::UnionNamed,
+    };
+    let all_items = |l: &VList| -> Vec<Item> { l.names.iter().map(|n| Item::Expr(vcol(n), Some(n.clone()))).collect() };
+    let num_col = |l: &VList| l.kinds.iter().position(|k| matches!(k, Kind::Int | Kind::Dbl | Kind::Mixed));
+    let mut use_kind = t.pick(10);
+    if sqlite_friendly && use_kind == 2 {
+        use_kind = 7;
+    }
+    let mut q = match use_kind {
+        0 => {
+            feats.insert("use_direct".into());
+            Query::of(SetExpr::Values(l.rows.clone()))
+        }
+        1 => {
+            feats.insert("use_star".into());
+            let f = From::Derived { q: Box::new(Query::of(SetExpr::Values(l.rows.clone()))), alias: "v".into(), cols: None };
+            Query::select(Select::simple(vec![Item::Star], vec![f], None))
+        }
+        2 | 7 => {
+            let naming = if use_kind == 7 { Naming::CteList } else { naming };
+            feats.insert("use_projected".into());
+            let (with, f) = source(&l, naming);
+            feats.insert(format!("naming_{:?}", naming).to_lowercase());
+            // a reordered, possibly repeated, subset of the columns
+            let n = 1 + t.pick(l.names.len() + 1);
+            let items: Vec<Item> = (0..n)
+                .map(|i| {
+                    let c = t.pick(l.names.len());
+                    Item::Expr(vcol(&l.names[c]), Some(format!("o{}", i)))
+                })
+                .collect();
+            let w = if t.chance(30) { Some(predicate(&mut t, &l)) } else { None };
+            let mut q = Query::select(Select::simple(items, vec![f], w));
+            q.with = with;
+            q
+        }
+        3 => {
+            feats.insert("use_filtered".into());
+            let (with, f) = source(&l, naming);
+            feats.insert(format!("naming_{:?}", naming).to_lowercase());
+            let mut w = predicate(&mut t, &l);
+            if t.chance(30) {
+                let w2 = predicate(&mut t, &l);
+                w = Expr::bin(w, if t.chance(50) { BinOp::And } else { BinOp::Or }, w2);
+            }
+            let mut q = Query::select(Select::simple(all_items(&l), vec![f], Some(w)));
+            q.with = with;
+            q
+        }
+        4 => {
+            let (with, f) = source(&l, naming);
+            feats.insert(format!("naming_{:?}", naming).to_lowercase());
+            let rt = From::Table { name: "r".into(), alias: None };
+            // join key: an integer column with r.x, else a string column with r.y, else a constant condition
+            let on = if let Some(c) = l.kinds.iter().position(|k| *k == Kind::Int) {
+                Expr::eq(vcol(&l.names[c]), Expr::qcol("r", "x"))
+            } else if let Some(c) = l.kinds.iter().position(|k| *k == Kind::Str) {
+                Expr::eq(vcol(&l.names[c]), Expr::qcol("r", "y"))
+            } else {
+                Expr::bin(Expr::qcol("r", "x"), BinOp::Ge, Expr::int(1))
+            };
+            let kind = [JoinKind::Inner, JoinKind::Left, JoinKind::Right][t.pick(3)];
+            feats.insert(format!("use_join_{:?}", kind).to_lowercase());
+            let (lf, rf) = if t.chance(50) { (f, rt) } else { (rt, f) };
+            let j = From::Join { l: Box::new(lf), r: Box::new(rf), kind, on: Some(on) };
+            let mut items = all_items(&l);
+            items.push(Item::Expr(Expr::qcol("r", "x"), Some("x".into())));
+            items.push(Item::Expr(Expr::qcol("r", "y"), Some("y".into())));
+            let mut q = Query::select(Select::simple(items, vec![j], None));
+            q.with = with;
+            q
+        }
+        5 | 6 => {
+            let grouped = use_kind == 6;
+            feats.insert(if grouped { "use_group_by".into() } else { "use_global_agg".into() });
+            let (with, f) = source(&l, naming);
+            feats.insert(format!("naming_{:?}", naming).to_lowercase());
+            let mut items: Vec<Item> = vec![];
+            let mut group = Group::None;
+            if grouped {
+                let mut c = t.pick(l.names.len());
+                // (a NULL grouping key is the open finding agg-null-group-key: mostly
+                // group by a column without NULLs when there is one)
+                let null_free: Vec<usize> = (0..l.names.len()).filter(|ci| l.rows.iter().all(|r| !matches!(r[*ci], Expr::Lit(Value::Null)))).collect();
+                if !null_free.is_empty() && !t.chance(15) {
+                    c = null_free[t.pick(null_free.len())];
+                }
+                items.push(Item::Expr(vcol(&l.names[c]), Some("k".into())));
+                group = Group::By(vec![vcol(&l.names[c])]);
+            }
+            items.push(Item::Expr(Expr::count_star(), Some("n".into())));
+            let c = t.pick(l.names.len());
+            items.push(Item::Expr(Expr::agg(AggF::Count, vcol(&l.names[c])), Some("nc".into())));
+            if let Some(c) = num_col(&l) {
+                // (a grouped SUM over a column qualified by a derived-table alias is an open
+                // finding — NULL sums, also over ordinary derived tables — so grouped uses
+                // take SUM rarely)
+                let f = if grouped && !t.chance(12) { [AggF::Min, AggF::Max, AggF::Avg][t.pick(3)] } else { [AggF::Sum, AggF::Min, AggF::Max, AggF::Avg][t.pick(4)] };
+                items.push(Item::Expr(Expr::agg(f, vcol(&l.names[c])), Some("a".into())));
+            }
+            if let Some(c) = l.kinds.iter().position(|k| *k == Kind::Str) {
+                if t.chance(40) {
+                    let f = [AggF::Min, AggF::Max][t.pick(2)];
+                    items.push(Item::Expr(Expr::agg(f, vcol(&l.names[c])), Some("m".into())));
+                }
+            }
+            let w = if t.chance(25) { Some(predicate(&mut t, &l)) } else { None };
+            let mut q = Query::select(Select { distinct: false, items, from: vec![f], where_: w, group, having: None });
+            q.with = with;
+            q
+        }
+        8 => {
+            // set operation between two lists of the same shape, or a table and a list
+            if t.chance(35) {
+                feats.insert("use_setop_table".into());
+                let l2 = gen_list(&mut t, Some(&[Kind::Int, Kind::Str]));
+                let sel = Select::simple(vec![Item::Expr(Expr::qcol("r", "x"), Some("x".into())), Item::Expr(Expr::qcol("r", "y"), Some("y".into()))], vec![From::Table { name: "r".into(), alias: None }], None);
+                let (a, b) = (SetExpr::Select(Box::new(sel)), SetExpr::Values(l2.rows.clone()));
+                let (a, b) = if t.chance(50) { (a, b) } else { (b, a) };
+                Query::of(SetExpr::Op { op: SetOp::Union, all: true, l: Box::new(a), r: Box::new(b) })
+            } else {
+                feats.insert("use_setop_values".into());
+                let kinds: Vec<Kind> = l.kinds.iter().map(|k| if *k == Kind::AllNull { Kind::Int } else { *k }).collect();
+                let l1 = gen_list(&mut t, Some(&kinds));
+                let l2 = gen_list(&mut t, Some(&kinds));
+                Query::of(SetExpr::Op { op: SetOp::Union, all: true, l: Box::new(SetExpr::Values(l1.rows.clone())), r: Box::new(SetExpr::Values(l2.rows.clone())) })
+            }
+        }
+        _ => {
+            feats.insert("use_ordered".into());
+            let (with, f) = source(&l, naming);
+            feats.insert(format!("naming_{:?}", naming).to_lowercase());
+            let mut q = Query::select(Select::simple(all_items(&l), vec![f], None));
+            q.with = with;
+            let nk = 1 + t.pick(l.names.len().min(2));
+            let mut used = vec![];
+            for _ in 0..nk {
+                let c = t.pick(l.names.len());
+                if used.contains(&c) || l.kinds[c] == Kind::AllNull {
+                    continue;
+                }
+                used.push(c);
+                let nulls_first = if t.chance(40) { Some(t.chance(50)) } else { None };
+                q.order_by.push(OrderKey { e: Expr::col(&l.names[c]), desc: t.chance(40), nulls_first });
+            }
+            if !q.order_by.is_empty() && t.chance(40) {
+                q.limit = Some(t.pick(5) as u64);
+            }
+            q
+        }
+    };
+    let _ = &mut q;
+    let nulls = l.rows.iter().flatten().filter(|e| matches!(e, Expr::Lit(Value::Null))).count();
+    if l.rows.len() >= 2 {
+        feats.insert("rows_ge2".into());
+    }
+    if nulls > 0 {
+        feats.insert("has_null".into());
+    }
+    if l.rows[0].iter().any(|e| matches!(e, Expr::Lit(Value::Null))) {
+        feats.insert("null_in_first_row".into());
+    }
+    for k in &l.kinds {
+        feats.insert(format!("col_{:?}", k).to_lowercase());
+    }
+    let n = r.rows.len();
+    SqlCase { tables: vec![r], query: q, cuts: vec![cuts.iter().map(|c| c % (n + 1)).collect()], features: feats.into_iter().collect() }
+}
+
+fn strategy(_tier: Tier) -> BoxedStrategy<SqlCase> {
+    (proptest::collection::vec(any::<u16>(), 60..200), proptest::collection::vec(0usize..8, 0..2)).prop_map(|(tape, cuts)| gen_values(tape, cuts, false)).boxed()
+}
+
+/// SQLite cross-check profile (`check --export values …`): column aliases through the CTE form
+pub fn export_strategy() -> BoxedStrategy<SqlCase> {
+    (proptest::collection::vec(any::<u16>(), 60..200), proptest::collection::vec(0usize..8, 0..2)).prop_map(|(tape, cuts)| gen_values(tape, cuts, true)).boxed()
+}
+
+fn nontrivial(c: &SqlCase, o: &SqlOutcome) -> bool {
+    has(c, "rows_ge2") && has(c, "has_null") && o.engine_rows.is_some()
+}
+
+fn classify(c: &SqlCase, ev: &BTreeSet<&'static str>, msg: &str) -> Option<&'static str> {
+    // (values-no-rows is decided in `ValuesRows::test`, which can see the engine's rows)
+    // grouped SUM(<alias>.<column>) over a derived table / CTE returns NULL sums
+    if has(c, "use_group_by") {
+        let mut sum_qualified = false;
+        crate::kf_sql::walk_query_exprs(&c.query, &mut |e| {
+            if let Expr::Agg { f: AggF::Sum, arg: Some(a), .. } = e {
+                if matches!(&**a, Expr::Col { rel: Some(_), .. }) {
+                    sum_qualified = true;
+                }
+            }
+        });
+        if sum_qualified {
+            return Some("agg-sum-qualified-derived-column");
+        }
+    }
+    // shared aggregate findings reachable through the aggregated uses
+    match classify_sql(c, ev, msg) {
+        Some(id @ ("agg-empty-input" | "agg-null-group-key")) => Some(id),
+        _ => None,
+    }
+}
+
+/// The statement with every VALUES list emptied (`SELECT <first row> WHERE 1 = 0`,
+/// same width): what an engine that lowers VALUES to an empty relation computes.
+fn empty_values(q: &Query) -> Query {
+    fn set(s: &SetExpr) -> SetExpr {
+        match s {
+            SetExpr::Values(rows) => {
+                let items = rows.first().map(|r| r.iter().enumerate().map(|(i, e)| Item::Expr(e.clone(), Some(format!("column{}", i + 1)))).collect()).unwrap_or_default();
+                SetExpr::Select(Box::new(Select::simple(items, vec![], Some(Expr::bin(Expr::int(1), BinOp::Eq, Expr::int(0))))))
+            }
+            SetExpr::Select(sel) => {
+                let mut sel = (**sel).clone();
+                sel.from = sel.from.iter().map(from).collect();
+                SetExpr::Select(Box::new(sel))
+            }
+            SetExpr::Op { op, all, l, r } => SetExpr::Op { op: *op, all: *all, l: Box::new(set(l)), r: Box::new(set(r)) },
+            SetExpr::Nested(q) => SetExpr::Nested(Box::new(empty_values(q))),
+        }
+    }
+    fn from(f: &From) -> From {
+        match f {
+            From::Table { .. } => f.clone(),
+            From::Derived { q, alias, cols } => From::Derived { q: Box::new(empty_values(q)), alias: alias.clone(), cols: cols.clone() },
+            From::Join { l, r, kind, on } => From::Join { l: Box::new(from(l)), r: Box::new(from(r)), kind: *kind, on: on.clone() },
+        }
+    }
+    let mut out = q.clone();
+    out.with = q.with.iter().map(|c| Cte { name: c.name.clone(), cols: c.cols.clone(), q: empty_values(&c.q) }).collect();
+    out.body = set(&q.body);
+    out
+}
+
+struct ValuesRows;
+
+impl Check for ValuesRows {
+    type Case = SqlCase;
+    fn name(&self) -> &'static str {
+        "values_rows"
+    }
+    fn rule(&self) -> &'static str {
+        "the VALUES list has >= 2 rows and contains a NULL, and the engine answered"
+    }
+    fn cases(&self, tier: Tier) -> u32 {
+        tier.pick(1500, 50_000)
+    }
+    fn max_shrink_iters(&self) -> u32 {
+        1500
+    }
+    fn strategy(&self, tier: Tier) -> BoxedStrategy<SqlCase> {
+        strategy(tier)
+    }
+    fn test(&self, c: &SqlCase, obs: &mut Obs) -> Verdict {
+        let out = judge(c, obs, 1e-9, classify);
+        obs.nontrivial(nontrivial(c, &out));
+        match out.verdict {
+            Verdict::Fail(msg) => {
+                // open finding values-no-rows: the physical planner lowers every VALUES list
+                // to an empty relation. Precise signature: the engine's answer is exactly the
+                // answer of the same statement with every VALUES list emptied.
+                let emptied = empty_values(&c.query);
+                if let Ok(r2) = crate::refsql::Db::new(&c.tables).run(&emptied) {
+                    if let Ok(got) = crate::engine::run_sql(&mem_context(c), &c.query.sql()) {
+                        if crate::refsql::compare_answer(&r2, &got, 1e-9).is_ok() {
+                            return Verdict::Known { id: "values-no-rows".into(), msg };
+                        }
+                    }
+                }
+                Verdict::Fail(msg)
+            }
+            v => v,
+        }
+    }
+}
 
 pub fn property() -> Property {
-    Property { id: "C44", level: "exploration", assumptions: &[], checks: vec![] }
+    Property {
+        id: "C44",
+        level: "exploration",
+        assumptions: &[
+            "the reference evaluator refsql lists the VALUES rows as written (cross-checked against SQLite with the `values` export profile)",
+            "names of un-aliased VALUES columns are implementation-defined: columns are referenced only through an explicit column-alias list",
+            "an engine error is an allowed outcome (the property forbids wrong rows, e.g. zero rows)",
+        ],
+        checks: vec![Box::new(ValuesRows)],
+    }
 }
